@@ -7,8 +7,10 @@ export VERIF_ROOT="$PWD" CARGO_NET_OFFLINE=true VERIF_SEED="${VERIF_SEED:-1}"
 export RUSTFLAGS="--cfg parity_scale_codec_verif -C instrument-coverage"
 props="$@"; [ -z "$props" ] && props="C01 C02 C03 C04 C06 C07 C08 C09 C10 C11 C12 C13 C14 C15 C16 C18 C19"
 bin=$(ls -d ~/.rustup/toolchains/nightly-x86_64-unknown-linux-gnu/lib/rustlib/x86_64-unknown-linux-gnu/bin)
-cargo +nightly build --release -p psc-verif --target-dir "$PWD/target/cov" 2>&1 | tail -2
 out=/var/tmp/psc-cov; rm -rf $out; mkdir -p $out
+# (build scripts are instrumented too: keep their profiles out of the source trees)
+LLVM_PROFILE_FILE="$out/build-%p-%m.profraw" cargo +nightly build --release -p psc-verif --target-dir "$PWD/target/cov" 2>&1 | tail -2; rm -f $out/build-*.profraw
+
 for p in $props; do
 	LLVM_PROFILE_FILE="$out/$p-%p-%m.profraw" ./target/cov/release/psc-verif $p quick > $out/$p.log 2>&1
 	echo "$p exit=$? $(grep -c VIOLATION $out/$p.log) violations"
